@@ -87,21 +87,22 @@ type gen struct {
 
 // cgen: generation context of one code object
 type cgen struct {
-	g          *gen
-	obj        *codeObj
-	rank       int  // may call contracts with index > rank with call data; lower ranks only with empty call data
-	locals     int  // values pushed by the prologue, usable through DUP
-	calls      bool // may emit calls
-	creates    bool // may emit CREATE/CREATE2
-	safe       bool // no deliberately hard-failing construct
-	initDepth  int
-	loopDepth  int
-	ncalls     int
-	ncreates   int
-	memScratch int64
+	g            *gen
+	obj          *codeObj
+	rank         int  // may call contracts with index > rank with call data; lower ranks only with empty call data
+	locals       int  // values pushed by the prologue, usable through DUP
+	calls        bool // may emit calls
+	creates      bool // may emit CREATE/CREATE2
+	safe         bool // no deliberately hard-failing construct
+	initDepth    int
+	loopDepth    int
+	ncalls       int
+	ncreates     int
+	memScratch   int64
+	forceForward bool // the next call statement targets a higher-ranked contract
 }
 
-func (g *gen) intn(n int) int { return g.rng.Intn(n) }
+func (g *gen) intn(n int) int      { return g.rng.Intn(n) }
 func (g *gen) chance(pct int) bool { return g.rng.Intn(100) < pct }
 
 // callGasConst: gas operand used by code of the given rank. Strictly decreasing
@@ -529,18 +530,18 @@ func (c *cgen) stRetData(h int, allowFail bool) *stmt {
 		b.op(RETURNDATASIZE)
 		c.smallOff(b)
 		b.op(RETURNDATACOPY)
-	case r < 75 || !allowFail || c.safe: // zero bytes from offset 0
+	case r < 88 || !allowFail || c.safe: // zero bytes from offset 0
 		b.pushInt(0)
 		b.pushInt(0)
 		c.smallOff(b)
 		b.op(RETURNDATACOPY)
-	case r < 84: // one byte past the end: must fail
+	case r < 92: // one byte past the end: must fail
 		b.pushInt(1)
 		b.op(RETURNDATASIZE)
 		c.smallOff(b)
 		b.op(RETURNDATACOPY)
 		g.p.tag("returndatacopy-out-of-range")
-	case r < 92: // size+1 bytes from 0
+	case r < 96: // size+1 bytes from 0
 		b.op(RETURNDATASIZE)
 		b.pushInt(1)
 		b.op(ADD)
@@ -729,12 +730,12 @@ func (c *cgen) pickTarget(op byte) target {
 	for try := 0; try < 8; try++ {
 		r := g.intn(100)
 		switch {
-		case r < 42:
+		case r < 52:
 			if c.rank+1 < p.NContr && !restrictStatic {
 				j := c.rank + 1 + g.intn(p.NContr-c.rank-1)
 				return target{a: contractAddr(j), kind: "contract", idx: j}
 			}
-		case r < 62:
+		case r < 66:
 			if p.ByzOnly || (p.Era == eraByzantium && g.chance(40)) {
 				i := 5 + g.intn(4)
 				if g.chance(25) {
@@ -744,7 +745,7 @@ func (c *cgen) pickTarget(op byte) target {
 			}
 			i := 1 + g.intn(4)
 			return target{a: precompileAddr(i), kind: "precompile", idx: i}
-		case r < 70:
+		case r < 72:
 			if c.rank >= 0 && !restrictStatic {
 				j := g.intn(minInt(c.rank+1, p.NContr))
 				return target{a: contractAddr(j), kind: "back", idx: j}
@@ -867,6 +868,11 @@ func (c *cgen) stCall(h int) *stmt {
 	b := newBuilder("call", h)
 	op := pickCallOp(g)
 	t := c.pickTarget(op)
+	if c.forceForward && c.rank+1 < g.p.NContr && !(g.p.ByzOnly && op == STATICCALL) {
+		j := c.rank + 1 + g.intn(g.p.NContr-c.rank-1)
+		t = target{a: contractAddr(j), kind: "contract", idx: j}
+	}
+	c.forceForward = false
 	c.ncalls++
 	g.p.tag("call:" + opTable[op].name)
 	var inOff, inSize int64
@@ -1082,7 +1088,7 @@ func (c *cgen) terminator(h int, soft bool) *stmt {
 	g := c.g
 	b := newBuilder("end", h)
 	r := g.intn(100)
-	if soft && r >= 82 {
+	if (soft || g.chance(45)) && r >= 82 {
 		r = g.intn(82)
 	}
 	switch {
@@ -1204,7 +1210,7 @@ func (c *cgen) block(h int, n int, depth int, allowEnd bool) []*stmt {
 func (g *gen) genContract(rank int, nstmts int) *codeObj {
 	obj := &codeObj{}
 	c := &cgen{g: g, obj: obj, rank: rank, calls: true, creates: true}
-	c.safe = g.chance(30)
+	c.safe = g.chance(50)
 	// prologue: locals
 	pro := newBuilder("prologue", 0)
 	pro.s.tag = "prologue"
@@ -1231,7 +1237,13 @@ func (g *gen) genContract(rank int, nstmts int) *codeObj {
 	gd.op(JUMPI)
 	gd.s.tag = "pinned"
 	obj.body = append(obj.body, gd.s)
-	obj.body = append(obj.body, c.block(h, nstmts, 1, true)...)
+	main := c.block(h, nstmts, 1, true)
+	if rank+1 < g.p.NContr && g.chance(75) { // make sure call chains through the ranks are common
+		c.forceForward = true
+		at := g.intn(len(main) + 1)
+		main = append(main[:at], append([]*stmt{c.stCall(h)}, main[at:]...)...)
+	}
+	obj.body = append(obj.body, main...)
 	obj.body = append(obj.body, c.terminator(h, false))
 	sp := newBuilder("pinned", h)
 	sp.label(lSimple)
@@ -1282,7 +1294,9 @@ func (g *gen) genRecursor(deep bool) *codeObj {
 	if op == CALL || op == CALLCODE {
 		b.pushInt(int64(g.intn(2)))
 	}
-	b.op(ADDRESS)
+	// its own fixed address, not ADDRESS: when this code runs under DELEGATECALL/CALLCODE in
+	// another contract's context, ADDRESS would call that contract and break the rank order
+	b.pushW(recursorAddr.big(), 20)
 	b.op(GAS)
 	b.op(op)
 	// stack: [n-1, ok]; fold the result of the inner call into the answer
@@ -1358,7 +1372,7 @@ func genProgram(rng *rand.Rand, id int64) *program {
 		p.tag("byzantium-precompiles-under-older-rules")
 	}
 	p.NContr = 2 + g.intn(3)
-	deep := !p.ByzOnly && g.chance(1) // probe the 1024 call depth limit
+	deep := !p.ByzOnly && g.intn(250) == 0 // probe the 1024 call depth limit
 	p.HasRecur = deep || g.chance(30)
 
 	bal := func() *big.Int {
@@ -1401,7 +1415,8 @@ func genProgram(rng *rand.Rand, id int64) *program {
 	case deep:
 		p.TopKind = topCall
 		p.To = recursorAddr
-		p.Data = word(big.NewInt(int64(1020 + g.intn(20))))[:]
+		w := word(big.NewInt(int64(1020 + g.intn(20))))
+		p.Data = w[:]
 		p.tag("depth-limit")
 	case r < 84 || p.ByzOnly:
 		p.TopKind = topCall
@@ -1415,7 +1430,8 @@ func genProgram(rng *rand.Rand, id int64) *program {
 		}
 		p.Data = randBytes(g.rng, n)
 		if n >= 32 && g.chance(50) { // a small first word
-			copy(p.Data, word(big.NewInt(int64(g.intn(300))))[:])
+			w := word(big.NewInt(int64(g.intn(300))))
+			copy(p.Data, w[:])
 		}
 		if g.chance(20) {
 			p.Value = big.NewInt(int64(1 + g.intn(100000)))
